@@ -153,6 +153,7 @@ fn h4_body(n: usize) {
     assert!(a.0 == b.0 && a.1 == b.1);
     assert!(a.0 == n);
     cover!(a.1 == Some(ConditionalDirectiveKind::Ifdef), "ifdef");
+    cover!(a.1.is_none(), "not_conditional");
 }
 harness! { fn c02_h4_directive_kind_case_insensitive_len2() unwind(10) { h4_body(2) } }
 harness! { fn c02_h4_directive_kind_case_insensitive_len5() unwind(10) { h4_body(5) } }
